@@ -21,6 +21,11 @@ pub enum Oracle {
     Once,
     /// C18: cyclic programs, values = lfp / fallback reference
     Cycles,
+    /// C08: canonical interning across threads
+    Intern,
+    /// C14: cycles through non-recovering functions: a request ends in the least fixpoint, a cycle
+    /// panic or a propagated panic; with `true`, no request into the cycle may return a value
+    PlainCycle(bool),
 }
 
 #[derive(Clone, Debug, Serialize, Deserialize)]
@@ -132,23 +137,94 @@ fn scen_body(sc: &Scen) {
             }
         }
         let log = sess.db.cx_arc().take_log();
+        if std::env::var("MC_TRACE").is_ok() {
+            eprintln!("== phase {phase}: outcomes {}", outs_class(&outs));
+            for r in &log {
+                eprintln!("     {r:?}");
+            }
+        }
         outcome(format!("{}#{}: {}", sc.name, phase, outs_class(&outs)));
         // value oracle
         for (t, ops) in sc.threads.iter().enumerate() {
             let exp = expected_for(&world, ops);
             for (i, (e, o)) in exp.iter().zip(outs[t].iter()).enumerate() {
                 let ok = match (&sc.oracle, e, o) {
+                    (Oracle::PlainCycle(pure), _, _) if phase == 0 => {
+                        // expectation with every function treated as fixpoint = least fixpoint
+                        let mut w2 = world.clone();
+                        for k in w2.kinds.iter_mut() {
+                            if *k == Kind::Ev {
+                                *k = Kind::Fx;
+                            }
+                        }
+                        let lfp = w2.expect(&ops[i]);
+                        // a request is "involved" if it reaches a non-recovering function on a cycle
+                        let into_cycle = match &ops[i] {
+                            Op::Q(n) => world.reaches_plain_cycle(*n),
+                            _ => matches!(e, Expect::Panic(Pk::Cycle)),
+                        };
+                        match o {
+                            Out::Panic(Pk::Cycle) | Out::Panic(Pk::CancelPropagated) => into_cycle,
+                            Out::Val(_) => out_matches(&lfp, o) && !(*pure && into_cycle),
+                            _ => false,
+                        }
+                    }
                     _ if out_matches(e, o) => true,
                     _ => false,
                 };
                 if !ok {
+                    // known cause (see known_findings.json): the value a non-recovering member
+                    // of a fixpoint cycle computed from a provisional value of the cycle head on
+                    // another thread is returned to the requester, and the member is re-executed
+                    // with a different result in a later iteration
+                    let mut class = "value";
+                    if let (Oracle::PlainCycle(_), Op::Q(_), Out::Val(v)) = (&sc.oracle, &ops[i], o) {
+                        let key = log.iter().find_map(|r| match r {
+                            Rec::CallBegin { th, f, key } if *th as usize == t + 1 && !f.has_cycle_handling() => Some((*f, *key)),
+                            _ => None,
+                        });
+                        if let Some(k) = key {
+                            let exits: Vec<u64> = log
+                                .iter()
+                                .filter_map(|r| match r {
+                                    Rec::Exit { f, key, val, unwinding: false, .. } if (*f, *key) == k => Some(*val),
+                                    _ => None,
+                                })
+                                .collect();
+                            if exits.len() >= 2 && exits.last() != Some(&(*v as u64)) && exits.contains(&(*v as u64)) {
+                                class = "provisional-value-of-non-recovering-member-returned";
+                            }
+                        }
+                    }
                     viol(
-                        &format!("value:{}", sc.name),
+                        &format!("{class}:{}", sc.name),
                         format!("phase {phase} thread {t} request {i} {:?}: expected {e:?}, observed {o:?}", ops[i]),
                     );
                     return;
                 }
             }
+        }
+        if sc.oracle == Oracle::Intern {
+            // canonical handles across threads: equal data <=> equal id (within this revision)
+            let mut by_data: std::collections::BTreeMap<(u8, u8), u64> = Default::default();
+            let mut by_id: std::collections::BTreeMap<u64, (u8, u8)> = Default::default();
+            for r in &log {
+                if let Rec::Interned { ty, data, id, .. } = r {
+                    if let Some(prev) = by_data.insert((*ty, *data), *id) {
+                        if prev != *id {
+                            viol(&format!("intern-not-canonical:{}", sc.name), format!("phase {phase}: (ty {ty}, data {data}) interned as {prev} and as {id} in one revision"));
+                            return;
+                        }
+                    }
+                    if let Some(prev) = by_id.insert(*id, (*ty, *data)) {
+                        if prev != (*ty, *data) {
+                            viol(&format!("intern-alias:{}", sc.name), format!("phase {phase}: id {id} denotes {prev:?} and (ty {ty}, data {data})"));
+                            return;
+                        }
+                    }
+                }
+            }
+            bump("interning_calls_checked", log.iter().filter(|r| matches!(r, Rec::Interned { .. })).count() as u64);
         }
         // execution-count oracle
         let mut blocked = 0u64;
